@@ -182,6 +182,9 @@ def run_scenario(sc, strategy, line_level=False, max_steps=6000):
             elif action == 'change':
                 peer.p2c.append(f'changed {ident} [{gid}, {{"t": 1}}]')
                 s.log(ev='peer_send', kind='changed', ident=ident, gid=gid)
+            elif sc.get('xreply'):     # an experimental request answered by an experimental (unknown, non-error) reply
+                peer.p2c.append(f'x{action} {ident} [{gid}, {{}}]')
+                s.log(ev='peer_send', kind='xreply', ident=ident, gid=gid)
             else:
                 peer.p2c.append(f'error_{action} {ident} ["ProtocolError", "x{gid}", {{}}]')
                 s.log(ev='peer_send', kind='error', ident=ident, gid=gid)
@@ -223,8 +226,10 @@ def run_scenario(sc, strategy, line_level=False, max_steps=6000):
         except BaseException as e:  # noqa
             s.log(ev='disc_ret', who='user', exc=type(e).__name__)
 
-    def caller(i, action, ident):
+    def caller(i, action, ident, after=0):
         ready.wait()
+        if after:
+            s.sleep(after)
         c = w.client
         s.log(ev='call', i=i, action=action, ident=ident)
         t0 = s.now
@@ -275,8 +280,8 @@ def run_scenario(sc, strategy, line_level=False, max_steps=6000):
         s.spawn('peer', peer_thread)
         s.spawn('main', main)
         names = []
-        for i, (a, idn) in enumerate(sc['callers'], 1):
-            s.spawn(f'c{i}', caller, i, a, idn)
+        for i, (a, idn, *after) in enumerate(sc['callers'], 1):
+            s.spawn(f'c{i}', caller, i, a, idn, *after)
             names.append(f'c{i}')
         if sc.get('updates') or sc.get('streaming'):
             s.spawn('upd', updater)
